@@ -65,9 +65,14 @@ func genCase(t *rapid.T) Case {
 			c.Items = append(c.Items, It{T: 0, W: float64(bw2) + fr()})
 		}
 		if i < n-1 {
-			switch k := rapid.IntRange(0, 11).Draw(t, "sep"); {
+			switch k := rapid.IntRange(0, 9).Draw(t, "sep"); {
 			case k == 0: // forced break
 				c.Items = append(c.Items, It{T: 1, W: 0, Y: inf}, It{T: 2, P: -inf})
+				if rapid.IntRange(0, 2).Draw(t, "leadglue") == 0 {
+					// the new line starts with (discardable) glue, as in "aaa\n bbb"
+					w := float64(rapid.IntRange(1, 4).Draw(t, "lgw"))
+					c.Items = append(c.Items, It{T: 1, W: w, Y: w / 2, Z: w / 3})
+				}
 			case k == 1: // consecutive glue
 				w := float64(rapid.IntRange(1, 3).Draw(t, "gw"))
 				c.Items = append(c.Items, It{T: 1, W: w, Y: w / 2, Z: w / 3}, It{T: 1, W: w, Y: w / 2, Z: w / 3})
